@@ -130,7 +130,20 @@ Definition seg_start_switch (f : file) (pos : N) : bool :=
            | Some o => pos =? o              (* segIdx < len(Entries) && boxStartPos == MoofOffset *)
            | None => false
            end
-       | None => if f_start_on_moof f then true else (segidx =? 0)
+       | None =>
+           if f_start_on_moof f then
+             (* every moof, unless the current segment was started by a styp or the box continues a
+                fragment opened by an emsg *)
+             match last_opt (f_segs f) with
+             | None => true
+             | Some s =>
+                 negb (is_some (sg_styp s) ||
+                       match last_opt (sg_frags s) with
+                       | Some fr => negb (is_some (fr_moof fr))
+                       | None => false
+                       end)
+             end
+           else (segidx =? 0)
        end.
 
 (* the decision of startSegmentIfNeeded: the switch, then
